@@ -73,6 +73,13 @@ func vVariant(k int, name string) Object {
 		}
 		h := []geometry.Point{{X: 0.25, Y: 0.25}, {X: 0.75, Y: 0.25}, {X: 0.75, Y: 0.75}, {X: 0.25, Y: 0.75}, {X: 0.25, Y: 0.25}}
 		return NewPolygon(geometry.NewPoly(L, [][]geometry.Point{h}, rtOpts))
+	case 28: // FeatureCollection whose children are not all Features (the constructor accepts any objects)
+		return NewFeatureCollection([]Object{NewPoint(p[0]), NewFeature(NewPoint(p[1]), ""), NewPolygon(nil), NewRect(geometry.Rect{Min: p[0], Max: p[0]})})
+	case 29: // GeometryCollection with its child R-tree built (IndexChildren 1)
+		g := new(GeometryCollection)
+		g.children = []Object{NewPoint(p[0]), NewLineString(geometry.NewLine([]geometry.Point{p[1], p[2]}, vNoIdx)), NewPolygon(nil)}
+		g.parseInitRectIndex(&ParseOptions{IndexChildren: 1})
+		return g
 	}
 	panic("bad variant")
 }
